@@ -1,4 +1,5 @@
 """C11-3 / C13 glue (engine M): the FastFft impls hand the right table and the right n^-1 to the generic butterflies."""
+import time
 import z3
 from ..common import *
 from ..mirsym import *
@@ -34,12 +35,16 @@ def felt_glue_scen(n, tag=''):
             return UNIT
         return f
     overridden = [m for m in ('fft', 'ifft', 'split_fft', 'merge_fft') if '<Felt as CyclotomicFourier>::' + m in P.by_key]
+    if overridden:
+        ex.abstract_rem = True          # obligations of a type-specific butterfly stay local: residues are cut points
+        ex.use_intervals = True         # and most of them are discharged by interval arithmetic before any solver query
+        ex.deadline = time.time() + 1500
     for mname in ('fft', 'ifft', 'split_fft', 'merge_fft'):
         if mname not in overridden:
             ex.over['CyclotomicFourier::' + mname] = rec(mname)
     xs = [Agg('Felt', None, (ex.new_input('a%d' % i, 'u32'),)) for i in range(n)]
-    for x in xs:
-        ex.assume(z3.ULT(x.f[0].t, Q))
+    for i, x in enumerate(xs):
+        ex.assume(z3.ULT(x.f[0].t, Q)); ex.bounds['a%d' % i] = (0, Q - 1)
     poly = Agg('Polynomial', None, (Seq('vec', xs),))
     res = {'n': n, 'calls': [], 'panics': []}
     for meth in ('fft_inplace', 'ifft_inplace', 'split_fft', 'merge_fft'):
@@ -71,7 +76,12 @@ def run(rep, tier, field):
     psi = None
     override_findings = []
     for n in [1 << k for k in range(11)] + [3, 6, 1000]:
-        r = felt_glue_scen(n)
+        try:
+            r = felt_glue_scen(n)
+        except Unsupported as e:
+            rep.oblige(1, ok=False)
+            rep.note_inconclusive('FastFft glue / butterfly execution at n=%d: %s' % (n, str(e)[:200]))
+            continue
         rep.states += r['paths']; rep.transitions += r['steps']; rep.queries += r['queries']
         rep.extra.setdefault('mir_hashes', {}).update(r['mir_hash'])
         calls = dict(r['calls']); panics = dict(r['panics'])
@@ -112,11 +122,27 @@ def run(rep, tier, field):
         from .. import replay
         rep.oblige(len(override_findings), ok=False)
         done = False
+        cands = []
         for n, meth, gen, msg, site, vec in override_findings:
+            cands.append((n, meth, gen, msg, site, vec))
+            # the model lives behind cut points (abstracted residues), so also try structured extreme vectors of that length:
+            # blocks of 2^k values q-1 followed by 2^k zeros, all q-1, alternating
+            for k in range(0, max(1, n.bit_length())):
+                blk = 1 << k
+                cands.append((n, meth, gen, msg, site, [(Q - 1) if (i // blk) % 2 == 0 else 0 for i in range(n)]))
+                cands.append((n, meth, gen, msg, site, [0 if (i // blk) % 2 == 0 else (Q - 1) for i in range(n)]))
+            cands.append((n, meth, gen, msg, site, [Q - 1] * n))
+        seen_n = set()
+        for n, meth, gen, msg, site, vec in cands:
             arg = ','.join(map(str, vec))
             cmd = {'ifft': 'ntt_inv', 'fft': 'ntt_fwd'}.get(gen, 'ntt_split_merge')
             dev, rel = replay.both([cmd, arg]); rep.replayed += 1
-            if dev.startswith('PANIC') or rel.startswith('PANIC'):
+            wrong = False
+            if gen in ('ifft', 'fft') and not rel.startswith('PANIC'):
+                # release builds do not panic on overflow: they return wrong values; the opposite transform must give the input back
+                back = replay.call1(['ntt_fwd' if gen == 'ifft' else 'ntt_inv', rel], 'release')
+                wrong = back != arg
+            if dev.startswith('PANIC') or rel.startswith('PANIC') or wrong:
                 rep.violation('ntt-override:panic', 'Felt\'s own %s (overriding the generic butterflies) violates an obligation at n=%d: %s at %s; natively %s(%s...) -> %s'
                               % (gen, n, msg, site, cmd, arg[:60], dev if dev.startswith('PANIC') else rel), {'replay_request': [cmd, arg], 'dev': dev[:120], 'release': rel[:120]})
                 done = True; break
@@ -134,7 +160,8 @@ def run(rep, tier, field):
             got = replay.both(['ntt_roundtrip', a]); rep.replayed += 1
             mono = ','.join('1' if i == (1 % n) else '0' for i in range(n))
             gotm = replay.both(['ntt_mul', a, mono]); wantm = ','.join(map(str, spec.negacyclic_mul([(7 * i + 3) % Q for i in range(n)], [1 if i == (1 % n) else 0 for i in range(n)])))
-            sm = replay.both(['ntt_split_merge', replay.call1(['ntt_fwd', a])]); wants = replay.call1(['ntt_fwd', a])
+            wants = replay.call1(['ntt_fwd', a])
+            sm = replay.both(['ntt_split_merge', wants]) if n >= 2 else (wants, wants)
             if got[0] != a or got[1] != a or gotm[0] != wantm or sm[0] != wants:
                 rep.violation('ntt-glue', b + ' - natively: round trip / product / split-merge at n=%d is wrong' % n, {'replay_request': ['ntt_roundtrip', a[:60]], 'dev': got[0][:80], 'expected': a[:80]})
                 continue
